@@ -700,10 +700,63 @@ func nearBaseline(q admReq) bool {
 	return d <= 2
 }
 
+// runHookTexts: the allow-request hook refuses with error texts a JSON encoder must escape (or,
+// for invalid UTF-8, replace): the 403 body must be JSON (parsed here by encoding/json, which is
+// strict) whose code is 4 and whose message is the hook's own text.  Both a plain handshake and a
+// handshake refused on a server with other hook-independent rejections around it.
+func runHookTexts(r *rep.Report) {
+	texts := []string{
+		"nope", "", "with \"quotes\" and \\ backslashes", "line\nbreak\tand\rreturn", "esc \x1b[31mred\x1b[0m", "nul \x00 inside", "bell \a vt \v ff \f bs \b",
+		"del \x7f", "invalid utf-8 \xff\xfe here", "tag \U000e0001 rune", "separators \u2028 \u2029", "</script><!-- html", "unicode é ß € 😀 中",
+		strings.Repeat("long ", 1000), "{\"code\":0,\"message\":\"injected\"}", "token=\x1b]0;title\x07",
+	}
+	for _, text := range texts {
+		so := &config.ServerOptions{}
+		text := text
+		so.SetAllowRequest(func(*types.HttpContext) error { return errors.New(text) })
+		eng := engine.NewServer(so)
+		errs := 0
+		eng.On("connection_error", func(...any) { errs++ })
+		rec := httptest.NewRecorder()
+		eng.ServeHTTP(rec, httptest.NewRequest("GET", "http://h/engine.io/?EIO=4&transport=polling", nil))
+		r.Case(fmt.Sprintf("hook-text/%.12q", text), true)
+		r.Obs("hook_texts_checked", 1)
+		var body struct {
+			Code    *int    `json:"code"`
+			Message *string `json:"message"`
+		}
+		// invalid UTF-8 cannot travel in JSON: how many replacement characters stand for a run of
+		// invalid bytes is not specified, so runs are collapsed on both sides
+		collapse := func(x string) string {
+			for strings.Contains(x, "\ufffd\ufffd") {
+				x = strings.ReplaceAll(x, "\ufffd\ufffd", "\ufffd")
+			}
+			return x
+		}
+		want := collapse(strings.ToValidUTF8(text, "\ufffd"))
+		jerr := json.Unmarshal(rec.Body.Bytes(), &body)
+		got := ""
+		if body.Message != nil {
+			got = *body.Message
+		}
+		// an empty hook text may be left out of the body (omitempty) or be ""
+		if rec.Code != 403 || jerr != nil || body.Code == nil || *body.Code != 4 || collapse(got) != want {
+			r.Violationf("c05-admission-decision:hook-text", map[string]string{"hook_error_text": text}, "allow-request hook refusing with the text %.60q: answered %d %.120q (JSON error: %v); documented: 403 with a JSON body of code 4 and the hook's own text as message", text, rec.Code, rec.Body.String(), jerr)
+		}
+		if errs != 1 {
+			r.Violationf("c05-connection-error-events", map[string]string{"hook_error_text": text}, "%d connection_error events for one refused handshake", errs)
+		}
+		if eng.ClientsCount() != 0 {
+			r.Violationf("c05-rejected-request-created-session", map[string]string{"hook_error_text": text}, "a refused handshake left %d sessions", eng.ClientsCount())
+		}
+		eng.Close()
+	}
+}
+
 func TestC05(t *testing.T) {
 	r := rep.New(t, "C05")
 	defer r.Flush()
-	r.Rule("routing: 9 attach variants (none, server options only, empty, path with/without slash, nested, addTrailingSlash on/off) x 16 request paths (exact, sub-paths, missing slash, dot segments, doubled slashes, case variants, unrelated) x methods {GET, POST, CONNECT, OPTIONS, DELETE} through types.HttpServer.ServeHTTP with a marked default handler, against a reference mount rule; admission: the abstract table method x transport value (incl. absent, repeated, webtransport, garbage) x sid {absent, unknown, known same/other transport, closed} x EIO x Origin bytes x upgrade headers x hook x middleware x enabled transports x allowEIO3 against a reference precedence model (differential), one connection_error per rejection, registry snapshot, canary session; plus refusals after an accepted WebSocket and an allowRequest refusal of a real WebTransport session (QUIC on loopback); thorough enumerates the table completely, quick a deterministic stride of it; distinct = table cells")
+	r.Rule("routing: 9 attach variants (none, server options only, empty, path with/without slash, nested, addTrailingSlash on/off) x 16 request paths (exact, sub-paths, missing slash, dot segments, doubled slashes, case variants, unrelated) x methods {GET, POST, CONNECT, OPTIONS, DELETE} through types.HttpServer.ServeHTTP with a marked default handler, against a reference mount rule; admission: the abstract table method x transport value (incl. absent, repeated, webtransport, garbage) x sid {absent, unknown, known same/other transport, closed} x EIO x Origin bytes x upgrade headers x hook x middleware x enabled transports x allowEIO3 against a reference precedence model (differential), one connection_error per rejection, registry snapshot, canary session; 16 hook error texts a JSON encoder must escape or replace (control characters, DEL, invalid UTF-8, supplementary-plane and separator runes, markup, JSON look-alikes), the body parsed strictly; plus refusals after an accepted WebSocket and an allowRequest refusal of a real WebTransport session (QUIC on loopback); thorough enumerates the table completely, quick a deterministic stride of it; distinct = table cells")
 	r.Assume("a WebSocket upgrade request on a server whose transports exclude websocket may be answered 501 or with the documented 'Transport unknown' error; for a repeated transport parameter either value may count")
 	r.Assume("cells whose outcome needs a hijackable connection (accepted WebSocket upgrades) or a blocking poll are decided in the R-http lanes of this and other checks and are counted as not decidable here")
 	if r.Lane == 0 {
@@ -711,6 +764,7 @@ func TestC05(t *testing.T) {
 		runAcceptedRefusals(r)
 		runUpgradeFailures(r)
 		runOriginBytes(r)
+		runHookTexts(r)
 	}
 	if r.Lane == 0 {
 		quicLanes(r, "admission")
